@@ -127,6 +127,30 @@ def validated_before_apply(ctx, p):
     ctx.ob(p + 'n1 log-read-sites', 'anchor', '-', 'LogReader reads the log file in at least two places', nread >= 2, 'found %d' % nread)
 
 
+def absent_only_if_not_found(ctx, p):
+    """interrupted index growth is re-detected from the files present: a table file that exists - whatever its length, a crash can
+    hit between create and set_len - is opened (and sized); "no such table" (Ok(None)) is reported only when opening the file fails
+    with NotFound. Otherwise replay re-creates the table with create_new and fails on the existing file, for good."""
+    F = ctx.F
+    n = 0
+    for fn in ('index::IndexTable::open_existing', 'ref_count::RefCountTable::open_existing'):
+        b = ctx.body(fn)
+        if not b:
+            continue
+        for bi in b.normal_blocks():
+            for st in b.blocks[bi]['s']:
+                if st['k'] == 'assign' and st['p'] == [0] and st['r']['k'] == 'agg' and st['r']['ak'] == 'Adt:std::result::Result::Ok' and st['r']['a'] and op_place(st['r']['a'][0]) is not None:
+                    l = op_place(st['r']['a'][0])[0]
+                    ds = [d for d in b.defs().get(l, []) if d[2] == 'assign']
+                    if ds and all(d[3]['r']['k'] == 'agg' and d[3]['r']['ak'] == 'Adt:std::option::Option::None' for d in ds):
+                        n += 1
+                        kinds = lib.errkind_guarded(b, bi)
+                        ctx.ob(p + 'a absent-only-on-NotFound %s' % fn, 'K3-guard', fn,
+                               'open_existing answers "no such table" only on the NotFound outcome of opening the file (an existing file of any length is opened)',
+                               bool(kinds) and kinds <= {'NotFound', '?'}, 'Ok(None) returned %s' % ('on error kinds %s' % sorted(kinds) if kinds else 'without looking at the error kind of File::open'), b.loc(bi))
+    ctx.ob(p + 'b absent-sites', 'anchor', '-', 'both open_existing functions have an Ok(None) exit', n >= 2, 'found %d' % n)
+
+
 def idempotent_appliers(ctx, p):
     F = ctx.F
     READS = ['file::TableFile::read_at', 'file::TableFile::slice_at', 're:(IndexTable|RefCountTable)::(chunk_at|entries|table_entries|read_entry|find_entry.*|get)$',
@@ -219,3 +243,4 @@ def run(ctx):
     replay_before_service(ctx, '6')
     shared.queue_discipline(ctx, '7')
     shared.drop_table_idempotent(ctx, '9')     # replayed actions are idempotent: DropTable
+    absent_only_if_not_found(ctx, '10')
